@@ -17,7 +17,7 @@ def conjuncts(g):
 
 def main(mod, qual, pattern):
     importlib.import_module("specs.base")
-    importlib.import_module("contracts.models_c"); importlib.import_module("specs.condense"); importlib.import_module("specs.pairwise"); importlib.import_module("contracts.condense_c"); importlib.import_module("contracts.utils_c")
+    importlib.import_module("contracts.models_c"); importlib.import_module("specs.condense"); importlib.import_module("specs.pairwise"); importlib.import_module("contracts.condense_c"); importlib.import_module("contracts.utils_c"); importlib.import_module("contracts.stv_c")
     importlib.import_module(mod)
     info = [i for i in REGISTRY.contracts.values() if i.qualname == qual][0]
     r = verify_function(info)
